@@ -28,8 +28,8 @@ PROPS = {
         assumptions=["pattern variables of current_op/3 calls are pairwise distinct (the model matches argument-wise)"],
     ),
     "C17": dict(
-        level_text="Proof: engine/dcg.go (expandDCG, dcgBody, dcgCBody with the dcgConstr table, dcgNonTerminal, dcgTerminals, Phrase), expand of builtin.go and seqIterator/altIterator of iterator.go are modelled in Lean over abstract terms with an explicit fresh-variable supply. Kernel-checked for ALL terms: the model equals 'read the body, apply the reference translation of the ISO DCG draft' including every error (C17_model_refines_spec, C17_expand_refines_spec, C17_expand_total); every successful translation is a correct threading of the two hidden arguments in the relational specification Threads with pairwise distinct fresh chain variables (C17_threading, C17_threading_vars, C17_nonconsuming, C17_pushback); expand_term/2 and phrase/3 use the same translation and the clause body instantiated by a call is exactly phrase/3's goal (C17_expand_vs_phrase); the compiler's seqIterator yields the ISO conjuncts for any nesting, so a translated !//0 is a clause-level cut (C17_conjunction_flat, C17_cut_clause_level, the repair of D16). Semantic preservation (answers of a reference SLD evaluation of the translated body = the list denotation) is proved for the fragment stated in C17_translation_sound_complete_partial; the full statement is kept open. The meaning itself is checked on the real interpreter by c17.lang: every input list up to the bound, recognition, remainders and generation, against the executable denotation.",
-        level_note="Trusted: Lean kernel; the hand-written model of dcg.go/iterator.go (checked by c17.expand, not proved); the specification files Spec/Grammar.lean, Spec/DcgSubst.lean, Spec/DcgSLD.lean; harness canonicalisation. The VM that runs the translated clauses is not modelled here (C01/C03): c17.lang observes it.",
+        level_text="Proof: engine/dcg.go (expandDCG, dcgBody, dcgCBody with the dcgConstr table, dcgNonTerminal, dcgTerminals, Phrase), expand of builtin.go and seqIterator/altIterator of iterator.go are modelled in Lean over abstract terms with an explicit fresh-variable supply. Kernel-checked for ALL terms: the model equals 'read the body, apply the reference translation of the ISO DCG draft' including every error (C17_model_refines_spec, C17_expand_refines_spec, C17_expand_total, C17_program_is_expansion); every successful translation is a correct threading of the two hidden arguments in the relational specification Threads, with pairwise distinct fresh chain variables and no other variables (C17_threading, C17_threading_vars, C17_nonconsuming, C17_pushback); expand_term/2 and phrase/3 use the same translation and the clause body instantiated by a call is exactly phrase/3's goal (C17_expand_vs_phrase); the compiler's seqIterator/altIterator yield the ISO conjuncts/disjuncts for any nesting, so a translated !//0 in a body sequence is a clause-level cut (C17_conjunction_flat, C17_alternatives, C17_cut_clause_level: the repair of D16). Semantic preservation — the answers (remainders, in order, pending cut) of a reference SLD evaluation with ISO cut semantics of the TRANSLATED body in the TRANSLATED grammar equal the list denotation, for every fuel — is proved for all grammars built from [], ground terminals, argument-free non-terminals (recursion allowed), ',', ';', '|', if-then(-else), \\+, !, {true/fail/!} and push-back on every ground input (C17_translation_sound_complete_partial, C17_model_translation_sound_complete_partial); the full statement (arguments, call//N, phrase//1, run-time bodies, generation mode) is kept open and is evaluated by the driver on every generated case. The meaning is checked on the real interpreter by c17.lang: every input list up to the bound, recognition, remainders, bindings and generation, against the executable denotation.",
+        level_note="Trusted: Lean kernel; the hand-written model of dcg.go/iterator.go (checked by c17.expand, not proved); the specification files Spec/Grammar.lean, Spec/DcgSubst.lean, Spec/DcgSLD.lean; harness canonicalisation. The VM that runs the translated clauses is not modelled here (C01/C03): c17.lang observes it, and its one systematic deviation from the ISO semantics (cut local to nested ';'/'->') is the listed finding C17-K1.",
         technique="Lean 4: model = specification by functional induction over the translation; relational threading specification; substitution lemma; reference SLD vs list denotation by induction on fuel and body; differential testing of the real interpreter against the executable denotation on exhaustive small inputs",
         lean_module="PrologVerif.Properties.C17",
         ns="PrologVerif.C17",
